@@ -139,7 +139,7 @@ func clusterOp(out *bufio.Writer, op string, raw []byte, scratch string) bool {
 			}
 			c.addrs = append(c.addrs, fmt.Sprintf("http://127.0.0.1:%d", port))
 		}
-		lmd.VerifSetNodeTiming(1, 100000)
+		lmd.VerifSetNodeTiming(2, 100000)
 		curCluster = c
 		for _, i := range line.Start {
 			c.startNode(i)
